@@ -7,9 +7,9 @@ import (
 	"bufio"
 	"crypto/sha256"
 	"encoding/binary"
-	"hash"
 	"encoding/json"
 	"fmt"
+	"hash"
 	"os"
 	"os/exec"
 	"path/filepath"
@@ -142,9 +142,9 @@ func Start(id, level string) *Run {
 	return r
 }
 
-func (r *Run) Quick() bool    { return r.Tier == "quick" }
-func (r *Run) Thorough() bool { return r.Tier == "thorough" }
-func (r *Run) Seed() int64    { return r.seed }
+func (r *Run) Quick() bool     { return r.Tier == "quick" }
+func (r *Run) Thorough() bool  { return r.Tier == "thorough" }
+func (r *Run) Seed() int64     { return r.seed }
 func (r *Run) Replaying() bool { return r.replayGroup != "" }
 
 // RecheckDone is true while a group is being re-executed for determinism and the case
